@@ -422,6 +422,17 @@ func (c *client) handleErrorMessage(runtimeMessage DecodedRuntimeMessage) bool {
 	if err := cbor.Unmarshal(runtimeMessage.RawMessageData, &errMessage); err != nil {
 		c.logger.Errorf("Step with run ID '%s' failed to decode error message: %v",
 			runtimeMessage.RunID, err)
+		// The content of the error is lost, so it cannot be known whether it was fatal. Do not leave the
+		// affected callers waiting for a result that may never come.
+		decodeErr := fmt.Errorf("failed to decode error message for run ID %q (%w)", runtimeMessage.RunID, err)
+		if runtimeMessage.RunID == "" {
+			c.sendErrorToAll(decodeErr)
+		} else {
+			c.mutex.Lock()
+			c.sendExecutionResult(runtimeMessage.RunID, NewErrorExecutionResult(decodeErr))
+			c.mutex.Unlock()
+		}
+		return false
 	}
 	errorMessageStr := errMessage.ToString(runtimeMessage.RunID)
 	resultMsg := fmt.Errorf("step with run ID %q sent error message: %s", runtimeMessage.RunID, errorMessageStr)
